@@ -155,7 +155,7 @@ impl Property for C05 {
     const RULE: &'static str = "timestamp quadruples built as base + signed deltas (base near 0, 2^63, 2^64 and random so era wrap is frequent; every true difference |Δ| < 2^31 s, so representable) and one-way pairs, fed as the two measurements the source hands to the two-way / one-way controller wrappers with a recording inner controller; oracle = i128 arithmetic on the wrapped 64-bit differences: offset = ((T2-T1)+(T3-T4))/2 within one unit (halving), delay = (T4-T1)-(T3-T2) exactly (saturating at the representable range), one-way offset = remote - local; non-trivial = not all deltas zero";
     const ASSUMPTIONS: &'static [&'static str] = &["the recorded InternalMeasurement is what the clock filter receives"];
     const QUICK_CASES: u32 = 1_500_000;
-    const THOROUGH_CASES: u32 = 30_000_000;
+    const THOROUGH_CASES: u32 = 150_000_000;
     fn strategy(_t: Tier) -> BoxedStrategy<C05Case> {
         let base = prop_oneof![
             2 => prop::sample::select(vec![0u64, 1, u64::MAX, 1 << 63, (1 << 63) - 1, 1 << 32, 0xE000_0000_0000_0000, 0x83AA_7E80_0000_0000]),
@@ -265,7 +265,7 @@ impl Property for C14 {
     const RULE: &'static str = "ENUMERATED on every run: cookie length 0..=1024 (step 1) × stash fill 1..=8 (all cookies of that length) × {NTPv4, NTPv5} × {AES-SIV-CMAC-256, -512}, plus plain associations in all three version modes; GENERATED: mixed-size stashes (lengths 0..1100) and several consecutive timers; oracle = handle_timer returns (no panic) and yields either Reset or a Send of ≤ 1024 bytes that the reference codec decodes and (NTS) authenticates under the c2s key; non-trivial = a cookie of ≥ 300 bytes";
     const ASSUMPTIONS: &'static [&'static str] = &["cookie contents are seeded bytes (the client never looks inside a cookie)"];
     const QUICK_CASES: u32 = 200_000;
-    const THOROUGH_CASES: u32 = 3_000_000;
+    const THOROUGH_CASES: u32 = 62_000_000;
     fn enumeration_note() -> Option<&'static str> {
         Some("complete sub-space: cookie length 0..=1024 × fill 1..=8 × {v4,v5} × {AEAD 256,512} (32800 cases) + 3 plain modes")
     }
@@ -394,7 +394,7 @@ impl Property for C33 {
     const RULE: &'static str = "(a) source snapshots with stratum 0..=17, reachable or not, source address from a pool that overlaps the local address list (v4/v6), reference id arbitrary or equal to the id of a local address, NTPv5 Bloom filter absent / without / with this daemon's server id, local stratum 1..16: acceptance implies every condition of the statement; (b) lists of used NTP/external sources: advertised stratum = primary + 1 (or the local stratum without sources), reference id = primary's id, the filter contains our id; (c) a plain association end to end: answers with stratum/reference id (incl. the id of a local address): the controller is told 'usable' only if the conditions hold for the state after that answer; (d) an NTPv5 association end to end with an honest scripted server whose 512-byte Bloom filter does or does not contain this daemon's id, 20..80 polls of which about one in ten stays unanswered: whenever the source is reported usable, a filter it regards as complete must be the server's and must not contain this daemon's id; (e) rounds of NtpManager::update_used_sources over external source types (PPS/SOCK/CSPTP: stratum 0, fixed identifiers) and not-yet-reported NTP ids: advertised stratum/reference id as in (b), unchanged while a used NTP source has not reported; non-trivial = a case where at least one rejection reason applies";
     const ASSUMPTIONS: &'static [&'static str] = &["the reference id a looping source reports for one of this daemon's addresses is the RFC 5905 value (IPv4 address, or first four octets of the MD5 of the IPv6 address), computed by the harness with the md-5 crate"];
     const QUICK_CASES: u32 = 1_000_000;
-    const THOROUGH_CASES: u32 = 20_000_000;
+    const THOROUGH_CASES: u32 = 22_000_000;
     fn strategy(_t: Tier) -> BoxedStrategy<C33Case> {
         let ips = || prop::collection::vec(addr_strategy(), 0..4);
         prop_oneof![
@@ -771,7 +771,7 @@ impl Property for C37 {
     const RULE: &'static str = "deterministic single-thread schedules over 1-4 source tasks and the controller's real message loop (TimeSyncControllerWrapper::run on a current-thread runtime): ops {measure(i), set usable/unusable(i), drop(i), add, yield to the controller (drain), yield one scheduler turn}; the real Kalman controller sits behind a delegating spy; oracle = the controller receives each source's updates in production order (measurement times strictly increase per source), nothing for an id after its removal, removal and usability exactly as last sent once the loop has drained, all messages of live sources delivered after a drain, and every id in a used-sources report is registered and last reported usable at that moment; non-trivial = a drop or a usability change with pending messages";
     const ASSUMPTIONS: &'static [&'static str] = &["op-level sequential schedules: every handler runs under the wrapper's mutex, so these cover all orderings of the atomic sections except true parallel preemption (outside this technique family)"];
     const QUICK_CASES: u32 = 100_000;
-    const THOROUGH_CASES: u32 = 2_000_000;
+    const THOROUGH_CASES: u32 = 4_000_000;
     fn strategy(_t: Tier) -> BoxedStrategy<C37Case> {
         let op = prop_oneof![
             8 => (0u8..4, -2000i32..2000, 1u16..3000).prop_map(|(src, offset_us, dt_ms)| SOp::Measure { src, offset_us, dt_ms }),
